@@ -18,8 +18,12 @@ WHAT = "fixing with layout rules changed the code tokens or the comments"
 def run(ctx, prove=True):
     ctx.rule = ("one fix run per (input, rule set) of the fixed universe (fixtures, seeded mutants, generated SQL; rule sets %s); "
                 "quick = seed-chosen slice, thorough = all; non-trivial = fix changed the file; distinct by (input, rule set)" % ", ".join(RULESETS))
+    from translate import layout_edits
+    linfo = layout_edits.generate()
+    ctx.extra["layout_constructors"] = linfo
     if prove:
-        ctx.prove(["SqlfluffVerif.Props.C14"], ["Props/C14.lean"])
+        ctx.prove(["SqlfluffVerif.Props.C14", "SqlfluffVerif.Gen.LayoutEdits"], ["Props/C14.lean"], ["Gen/LayoutEdits.lean"])
+    ctx.trusted += ["harness/translate/layout_edits.py (AST scan of rules/layout and utils/reflow: constructor and .edit call sites)"]
     ctx.partial += ["the rules' edits are not modelled one by one: the theorem composes edits that satisfy the per-edit condition, the end-to-end spec is evaluated on real runs"]
     fixchecks.run_universe(ctx, PROP, RULESETS, ctx.budget(300, 10 ** 9), WHAT, KINDS, focus=("cmt",))
 
